@@ -139,6 +139,21 @@ def run(ctx):
         ctx.rule(rid, text)
     from . import rulecoll
     rulecoll.invariants(ctx, "R10", which=("rc2", "rc3"))
+    # `sg run` / `sg scan` search every file the library would: which files reach the scan is decided by path/config filters and by
+    # read_file alone (the C17 R5 obligations: walker filters, no metadata-based skip, one reader)
+    from . import c17
+    from ..core import Ctx
+    sub17 = prog.__dict__.get("_c17_sub")
+    if sub17 is None:
+        sub17 = Ctx("C17", ctx.tier, prog)
+        c17.run(sub17)
+        prog.__dict__["_c17_sub"] = sub17
+    n17 = 0
+    for o in sub17.obligations:
+        if o["rule"] == "R5":
+            n17 += 1
+            ctx.ob("R10", "file selection/" + o["key"].split(":", 1)[1], o["ok"], o["detail"], where=o.get("where"), nontrivial=o.get("nontrivial", True))
+    ctx.floor("R10", "file-selection obligations shared with C17 R5", n17, 5)
     impls = matcher_impls(prog)
     ctx.floor("R1", "Matcher impls", len(impls), 22)
     r1_r2(ctx, impls)
